@@ -31,10 +31,15 @@ def build(case):
     kind, n, mc, two = case["kind"], case["n"], case.get("mc", 0), case.get("two", False)
     delays = case.get("delays") or []
 
+    caught = case.get("caught") or []        # iterations / branches whose first Task fails and is caught inside the iteration by a (slow) fallback Task: the iteration still succeeds
+
     def item_proc(prefix, more=None):
         states = {prefix + "T1": {"Type": "Task", "Resource": fn("item"), "Next": prefix + "T2"} if two else {"Type": "Task", "Resource": fn("item"), "End": True}}
         if two:
             states[prefix + "T2"] = {"Type": "Task", "Resource": fn("item2"), "End": True}
+        if caught:
+            states[prefix + "T1"]["Catch"] = [{"ErrorEquals": ["States.ALL"], "ResultPath": "$.err", "Next": prefix + "R"}]
+            states[prefix + "R"] = {"Type": "Task", "Resource": fn("recover"), "End": True}
         return {"StartAt": prefix + "T1", "States": states}
     after = {"Type": "Task", "Resource": fn("after"), "End": True}
     items = [{"k": i} for i in range(n)]
@@ -47,6 +52,10 @@ def build(case):
         branches = [{"StartAt": "B%dT1" % i, "States": dict(
             {"B%dT1" % i: ({"Type": "Task", "Resource": fn("item"), "Parameters": {"k": i}, "Next": "B%dT2" % i} if two else {"Type": "Task", "Resource": fn("item"), "Parameters": {"k": i}, "End": True})},
             **({"B%dT2" % i: {"Type": "Task", "Resource": fn("item2"), "End": True}} if two else {}))} for i in range(n)]
+        for i in caught:
+            if i < n:
+                branches[i]["States"]["B%dT1" % i]["Catch"] = [{"ErrorEquals": ["States.ALL"], "ResultPath": "$.err", "Next": "B%dR" % i}]
+                branches[i]["States"]["B%dR" % i] = {"Type": "Task", "Resource": fn("recover"), "Parameters": {"k": i, "recovered": True}, "End": True}
         states = {"M": {"Type": "Parallel", "Branches": branches, "Next": "After"}, "After": after}
     elif kind == "map-of-parallel":
         inner = {"Type": "Parallel", "End": True, "Branches": [
@@ -80,7 +89,10 @@ def build(case):
     for i, d in enumerate(delays):
         if d:
             by_key[json.dumps(i)] = [{"ok": "$echo", "delay": d}]
-    oracle = {"item": {"seq": [{"ok": "$echo"}], "by_key": by_key}, "item2": {"seq": [{"ok": "$echo"}]}, "after": {"seq": [{"ok": "$echo"}]}}
+    for i in caught:
+        by_key[json.dumps(i)] = [{"err": "Boom", "msg": "caught inside the iteration", "delay": (delays[i] if i < len(delays) else 0)}]
+    oracle = {"item": {"seq": [{"ok": "$echo"}], "by_key": by_key}, "item2": {"seq": [{"ok": "$echo"}]}, "after": {"seq": [{"ok": "$echo"}]},
+              "recover": {"seq": [{"ok": "$echo", "delay": case.get("recover_delay", 2)}]}}
     return definition, {"items": items}, oracle
 
 
@@ -103,7 +115,7 @@ def run_once(case, schedule, eager_time=False):
         fails += H.compare_outcome(exp, H.detail_outcome(term))
         log = w.broker.oplog
         # request / reply bookkeeping from the broker log
-        req = [o for o in log if o["kind"] == "publish" and o.get("reply_to") and o["queues"] and o["queues"][0] in ("item", "item2", "after")]
+        req = [o for o in log if o["kind"] == "publish" and o.get("reply_to") and o["queues"] and o["queues"][0] in ("item", "item2", "recover", "after")]
         rep_deliv = {o["correlation_id"]: o for o in log if o["kind"] == "deliver" and str(o["queue"]).startswith("asl_workflow_reply_to")}
         item_reqs = [o for o in req if o["queues"][0] == "item"]
         payloads = [json.loads(o["body"]) for o in item_reqs]
@@ -121,15 +133,17 @@ def run_once(case, schedule, eager_time=False):
             if len(after_req) != 1:
                 fails.append(("after-requested-%d-times" % len(after_req), "the state after the join was invoked %d times" % len(after_req)))
             else:
-                last_branch_reply = max([rep_deliv[o["correlation_id"]]["seq"] for o in req if o["queues"][0] in ("item", "item2") and o["correlation_id"] in rep_deliv] or [0])
+                last_branch_reply = max([rep_deliv[o["correlation_id"]]["seq"] for o in req if o["queues"][0] in ("item", "item2", "recover") and o["correlation_id"] in rep_deliv] or [0])
                 if after_req[0]["seq"] < last_branch_reply:
                     fails.append(("join-before-all-branches-finished", "the After request (op %d) was issued before the last branch reply was delivered (op %d)" % (after_req[0]["seq"], last_branch_reply)))
         # (3) in-flight iterations of the (outer) Map never exceed MaxConcurrency
         if case["kind"] in ("map", "map-of-parallel", "parallel-with-map", "map-of-map") and mc > 0:
-            per_iter = 2 if (case.get("two") and case["kind"] in ("map", "parallel-with-map")) or case["kind"] in ("map-of-parallel", "map-of-map") else 1
+            per_iter_base = 2 if (case.get("two") and case["kind"] in ("map", "parallel-with-map")) or case["kind"] in ("map-of-parallel", "map-of-map") else 1
+            caught_set = set(case.get("caught") or []) if case["kind"] in ("map", "parallel-with-map") else set()
+            per_iter_of = lambda i: 2 if i in caught_set else per_iter_base       # a caught iteration is its failing Task plus the fallback Task
             corr_idx, started, done, peak, peak_at = {}, set(), {}, 0, None
             for o in log:
-                if o["kind"] == "publish" and o.get("reply_to") and o["queues"] and o["queues"][0] in ("item", "item2"):
+                if o["kind"] == "publish" and o.get("reply_to") and o["queues"] and o["queues"][0] in ("item", "item2", "recover"):
                     idx = iteration_index(case, json.loads(o["body"]))
                     if idx is not None:
                         corr_idx[o["correlation_id"]] = idx
@@ -139,7 +153,7 @@ def run_once(case, schedule, eager_time=False):
                     done[idx] = done.get(idx, 0) + 1
                 else:
                     continue
-                active = len([i for i in started if done.get(i, 0) < per_iter])
+                active = len([i for i in started if done.get(i, 0) < per_iter_of(i)])
                 if active > peak:
                     peak, peak_at = active, o["seq"]
             if peak > mc:
@@ -211,6 +225,7 @@ def small_cases(tier):
     out.append({"kind": "parallel", "n": 2, "two": True})
     out.append({"kind": "map", "n": 2, "mc": 1, "two": True})
     out.append({"kind": "parallel-with-map", "n": 1, "mc": 0})
+    out.append({"kind": "map", "n": 3, "mc": 2, "two": False, "caught": [0], "recover_delay": 2})
     if tier == "thorough":
         out += [{"kind": "parallel", "n": 3, "two": False}, {"kind": "map", "n": 3, "mc": 2, "two": False}, {"kind": "map", "n": 3, "mc": 0, "two": False},
                 {"kind": "map-of-parallel", "n": 2, "mc": 1}, {"kind": "map-of-map", "n": 2, "mc": 1, "inner_mc": 1}, {"kind": "parallel-with-map", "n": 2, "mc": 1}]
@@ -255,6 +270,9 @@ def random_shard(k, seed, tier, examples=60):
         if kind == "map-of-map":
             c["inner_mc"] = draw(st.sampled_from([None, 0, 1, 2]))
         c["delays"] = draw(st.lists(st.sampled_from([0, 0, 0.5, 1, 2]), min_size=n, max_size=n))
+        if kind in ("map", "parallel", "parallel-with-map") and n >= 1 and draw(st.integers(0, 2)) == 0:
+            c["caught"] = sorted(draw(st.sets(st.integers(0, n - 1), min_size=1, max_size=2)))
+            c["recover_delay"] = draw(st.sampled_from([1, 2, 4]))
         sched = draw(st.lists(st.integers(0, 5), max_size=60 if tier == "thorough" else 30))
         return c, sched
 
@@ -269,7 +287,7 @@ def random_shard(k, seed, tier, examples=60):
         except Exception as e:
             camp.harness_error("case crashed the harness: %r %s %s" % (e, traceback.format_exc()[-700:], json.dumps(c)))
             return
-        camp.case(c, nontrivial=case["n"] >= 2 and (any(sched) or any(case["delays"])), classes=["random", "kind-" + case["kind"], "n-%d" % min(case["n"], 5), "mc-%s" % case.get("mc")],
+        camp.case(c, nontrivial=case["n"] >= 2 and (any(sched) or any(case["delays"])), classes=["random", "kind-" + case["kind"], "n-%d" % min(case["n"], 5), "mc-%s" % case.get("mc")] + (["failure-caught-inside-iteration"] if case.get("caught") else []),
                   sample=dict(c, outcome=info["outcome"], steps=info["steps"]))
         for b, d in fails:
             camp.fail(b, c, d)
@@ -285,7 +303,7 @@ def replay_case(case):
 def main(tier, seed, replay=None):
     camp = Campaign(PID, rule=RULE, tier=tier, seed=seed)
     camp.assumptions = [
-        "all branches succeed (failing branches are C06); workers reply after a scripted virtual delay",
+        "all branches succeed (failing branches are C06), some of them only because a failing Task is caught inside the iteration by a slow fallback Task; workers reply after a scripted virtual delay",
         "exhaustive enumeration lets virtual time pass only when nothing else is enabled; the sampled part also lets time pass while deliveries are pending",
         "in-flight = iterations with a request issued whose reply has not yet been delivered to the engine (a lower bound of the iterations in progress)",
     ]
